@@ -267,6 +267,18 @@ def checkCase (j : Json) : Except String Verdict := do
         if strD (getJ loc "code") "email" != showBytes s.email then v := v.mon "C09" "code_is_not_the_session" idx
       | _ => v := v.mon "C09" "code_without_session" idx
       if first (formVals "state") == "" then v := v.mon "C09" "code_without_state" idx
+    -- C09: a refresh / revalidation never moves the lifetime fixed at login, nor changes whose session it is
+    if endpoint != "callback" then
+      match cookie with
+      | .opens s =>
+        for x in setCookies do
+          if strD x "name" == cname && !(boolD x "empty") then
+            match sessOf (getJ x "sess") with
+            | some ns =>
+              if ns.lifetime != s.lifetime then v := v.mon "C09" "check_keeps_lifetime" idx s!"{s.lifetime} -> {ns.lifetime}"
+              if ns.email != s.email then v := v.mon "C09" "check_keeps_identity" idx
+            | none => pure ()
+      | _ => pure ()
     -- C09/C10: the callback creates a session only with matching nonce and an IdP-vouched (verified) e-mail
     if endpoint == "callback" && sessWrites.contains "save" then
       let stj := getJ ora "state"
